@@ -57,12 +57,15 @@ pub enum Draw {
     Bytes(u32),
 }
 
-/// Raised (as a panic payload) when the code under test asks for more draws
-/// than any terminating call could need. This is a *harness* condition (a
-/// degenerate stream may legally starve one of `rand`'s rejection samplers),
-/// never a violation.
+/// Raised (as a panic payload) when the code under test asks for more draws than any terminating call could
+/// need (the per-operation draw cap). `adversarial`: boundary words had been injected into this stream before
+/// the cap was hit. A degenerate stream may legally starve a rejection sampler, so an adversarial starvation is a
+/// *harness* condition; a starvation on a purely seeded stream (no injected word) can only mean that the code
+/// under test does not terminate (or consumes randomness without bound) and is a violation of "returns".
 #[derive(Debug)]
-pub struct Starvation;
+pub struct Starvation {
+    pub adversarial: bool,
+}
 
 pub const DEFAULT_DRAW_CAP: u64 = 1_000_000;
 
@@ -172,7 +175,7 @@ impl SimRng {
     fn raw(&mut self, is32: bool) -> u64 {
         self.draws += 1;
         if self.draws > self.cap {
-            std::panic::panic_any(Starvation);
+            std::panic::panic_any(Starvation { adversarial: self.boundary_fired > 0 });
         }
         let w = if self.pos < self.prefix.len() {
             let w = self.prefix[self.pos];
@@ -240,7 +243,7 @@ impl RngCore for SimRng {
     fn fill_bytes(&mut self, dst: &mut [u8]) {
         self.draws += 1;
         if self.draws > self.cap {
-            std::panic::panic_any(Starvation);
+            std::panic::panic_any(Starvation { adversarial: self.boundary_fired > 0 });
         }
         self.digest = mix(self.digest, 0xB17E_5000_0000_0000 ^ dst.len() as u64);
         let mut acc = 0u64;
